@@ -50,6 +50,7 @@ let runners : (string * (z list -> z list)) list = [
   ("rf24", run_rf24);
   ("net", run_net);
   ("replay", run_replay);
+  ("ble", run_ble);
 ]
 
 (* ---------- the world server: one mutable world shared by the SPI shims of a run ---------- *)
